@@ -46,7 +46,12 @@ Theorem C03_peg_tree_wf : forall (g : pgrammar) start w ts p' w',
   fwf 0 p' ts /\ spans_in 0 (blen w) ts /\ p' + blen w' = blen w.
 Proof. exact peg_tree_wf. Qed.
 
-(* ---- (iii) token classes of the generated grammar vs the ABNF (all strings over the alphabet up to the bound) ---- *)
+(* ---- (iii) token classes of the generated grammar vs the ABNF (all strings over the alphabet up to the bound) ----
+   Grammars (Tokens.v):  g_number = variant {d_radix_float}      g_id    = variant {d_id_runs, d_dollar}
+                         g_text   = variant {d_ctrl_chars, d_escapes}   g_bytes = variant {d_bytes_raw, d_bsqual_case}
+                         g_blank  = variant {d_ctrl_chars}       g_ctl   = variant {d_cborseq}
+   i.e. the specification grammar with exactly the named deviations switched on; the *_refuted theorems show that the
+   deviations are real (the RFC rule itself differs from the PEG rule). *)
 Theorem C03_uint_lang_eq_bounded : forall w, Forall (fun c => In c sig_uint) w -> (length w <= 5)%nat ->
   (peg_matches cddl_pest r_uint_value w = Some true <-> Der abnf_spec (ARef n_uint) w []).
 Proof. exact uint_lang_eq_bounded. Qed.
@@ -56,27 +61,27 @@ Theorem C03_occur_lang_eq_bounded : forall w, Forall (fun c => In c sig_occur) w
 Proof. exact occur_lang_eq_bounded. Qed.
 
 Theorem C03_number_lang_eq_bounded : forall w, Forall (fun c => In c sig_number) w -> (length w <= 5)%nat ->
-  (peg_matches cddl_pest r_number w = Some true <-> Der (variant (mask [d_radix_float])) (ARef n_number) w []).
+  (peg_matches cddl_pest r_number w = Some true <-> Der g_number (ARef n_number) w []).
 Proof. exact number_lang_eq_bounded. Qed.
 
 Theorem C03_id_lang_eq_bounded : forall w, Forall (fun c => In c sig_id) w -> (length w <= 5)%nat ->
-  (peg_matches cddl_pest r_id w = Some true <-> Der (variant (mask [d_id_runs; d_dollar])) (ARef n_idns) w []).
+  (peg_matches cddl_pest r_id w = Some true <-> Der g_id (ARef n_idns) w []).
 Proof. exact id_lang_eq_bounded. Qed.
 
 Theorem C03_text_lang_eq_bounded : forall w, Forall (fun c => In c sig_text) w -> (length w <= 5)%nat ->
-  (peg_matches cddl_pest r_text_value w = Some true <-> Der (variant (mask [d_ctrl_chars; d_escapes])) (ARef n_text) w []).
+  (peg_matches cddl_pest r_text_value w = Some true <-> Der g_text (ARef n_text) w []).
 Proof. exact text_lang_eq_bounded. Qed.
 
 Theorem C03_text_escapes_lang_eq : forall w, In w text_probe ->
-  (peg_matches cddl_pest r_text_value w = Some true <-> Der (variant (mask [d_ctrl_chars; d_escapes])) (ARef n_text) w []).
+  (peg_matches cddl_pest r_text_value w = Some true <-> Der g_text (ARef n_text) w []).
 Proof. exact text_escapes_lang_eq. Qed.
 
 Theorem C03_bytes_lang_eq_bounded : forall w, Forall (fun c => In c sig_bytes) w -> (length w <= 5)%nat ->
-  (peg_matches cddl_pest r_bytes_value w = Some true <-> Der (variant (mask [d_bytes_raw; d_bsqual_case])) (ARef n_bytes) w []).
+  (peg_matches cddl_pest r_bytes_value w = Some true <-> Der g_bytes (ARef n_bytes) w []).
 Proof. exact bytes_lang_eq_bounded. Qed.
 
 Theorem C03_blank_comment_lang_eq_bounded : forall w, Forall (fun c => In c sig_blank) w -> (length w <= 5)%nat ->
-  (peg_matches cddl_pest r_cddl w = Some true <-> Der (variant (mask [d_ctrl_chars])) (ARef n_cddl) w []).
+  (peg_matches cddl_pest r_cddl w = Some true <-> Der g_blank (ARef n_cddl) w []).
 Proof. exact blank_lang_eq_bounded. Qed.
 
 Theorem C03_id_lang_refuted : exists w, peg_matches cddl_pest r_id w = Some false /\ Der abnf_spec (ARef n_id) w [].
@@ -96,7 +101,7 @@ Theorem C03_control_names_ok : same_set generated_control_names (map s2n registe
 Proof. exact control_names_ok. Qed.
 
 Theorem C03_control_op_lang_eq : forall w, In w ctl_probe ->
-  (peg_matches cddl_pest r_control_op w = Some true <-> Der (variant (mask [d_cborseq])) (ARef n_ctlop) w []).
+  (peg_matches cddl_pest r_control_op w = Some true <-> Der g_ctl (ARef n_ctlop) w []).
 Proof. exact control_op_lang_eq. Qed.
 
 (* ... but one registered name can never be matched as a whole: the ordered choice takes its prefix "cbor" *)
